@@ -6,7 +6,7 @@ from harness.pyval import enc, dec, py_fn
 
 PID = 'C06'
 RULE = ('split(predicate, inner) with predicates whose values are equal but not identical objects (rebuilt tuples, big '
-        'ints, floats vs ints vs bools, run-time strings), runs of length 1, a single run, empty keys; 1-3 interleaved outer '
+        'ints, floats vs ints vs bools, run-time strings, None and falsy values for whole runs), runs of length 1, a single run, empty keys; 1-3 interleaved outer '
         'keys with reused slots; also under group_by and nested in roll/split (model comparison). The inner pipeline is '
         'tapped at its head. Oracle: segments = maximal runs of == predicate value, contiguous, in order, last one closed at '
         'key completion, none for an empty key; also with mux errors travelling through split (dropped at the inner head and after split): they neither open nor close a segment. non-trivial = >= 2 runs in some key; distinct = distinct JSON')
@@ -16,7 +16,10 @@ PREDS = [['floordiv', 2], ['floordiv', 3], ['isodd'], ['mod', 2], ['id'], ['cons
          ['comp', ['floordiv', 3], ['tofloat']],
          ['comp', ['floordiv', 2], ['add', enc(10 ** 20)]],
          ['comp', ['mod', 2], ['eq', enc(1)]],
-         ['comp', ['pair', ['floordiv', 4], ['const', enc('xy')]], ['nth', 0]]]
+         ['comp', ['pair', ['floordiv', 4], ['const', enc('xy')]], ['nth', 0]],
+         # predicate values that are None / falsy for whole runs (a missing field): still ordinary values for !=
+         ['noneif', ['gt', enc(3)]], ['comp', ['floordiv', 3], ['noneif', ['isodd']]], ['comp', ['floordiv', 2], ['noneif', ['lt', enc(2)]]],
+         ['const', enc(None)], ['comp', ['floordiv', 4], ['eq', enc(1)]], ['comp', ['floordiv', 3], ['mod', 2]]]
 
 
 def generate(rng, tier):
